@@ -84,6 +84,13 @@ def showRuleErr : Rules.RuleErr → String
 
 def sigOfType (t : GoType) : String := t.print
 
+/-- the value reaches a custom folder of the menagerie through a pointer, or is of a
+pointer-shaped type with a registered fold function (`UFM`, `UFP`): the library has to compute
+the address the folder is called with -/
+def reachesFolderByAddress (t : GoType) (v : GoVal) : Bool :=
+  let s := t.print ++ " " ++ v.print
+  (s.splitOn "*@").length > 1 || (s.splitOn "@UFM").length > 1 || (s.splitOn "@UFP").length > 1
+
 /-- C12 + C09 on one un-faulted fold observation -/
 def foldOracle (t : GoType) (v : GoVal) (obs : String) (reg : Bool := true) : List String :=
   let (xevs, verdict) := splitObs obs
@@ -96,7 +103,9 @@ def foldOracle (t : GoType) (v : GoVal) (obs : String) (reg : Bool := true) : Li
     else [s!"C12 fold-{verdict}-instead-of-error rule={showRuleErr e} {ctx}"]
   | .ok want =>
     if verdict == "panic" || verdict == "fatal" || verdict == "hang" then
-      [s!"C12 fold-{verdict} {ctx}"]
+      [s!"C12 fold-{verdict} {ctx}"] ++
+        (if verdict != "hang" && reachesFolderByAddress t v then
+           [s!"C15 custom-folder-read-other-memory fold-{verdict} {ctx}"] else [])
     else if verdict != "ok" then [s!"C12 fold-error-on-supported-value {ctx}"]
     else
       let evs := expandAll xevs
@@ -105,7 +114,12 @@ def foldOracle (t : GoType) (v : GoVal) (obs : String) (reg : Bool := true) : Li
        | none => [s!"C12 fold-events-describe-no-value {ctx}"]
        | some got =>
          if Rules.agrees want got then []
-         else [s!"C12 fold-wrong-value want={showVal want.toVal} got={showVal got} {ctx}"])
+         else [s!"C12 fold-wrong-value want={showVal want.toVal} got={showVal got} {ctx}"] ++
+           -- the folders of the menagerie are fixed harness code: a wrong value for a type that
+           -- reaches one of them through a pointer means the folder was handed the address of
+           -- something else (C15: an invalid pointer conversion on the way to user code)
+           (if reachesFolderByAddress t v then
+              [s!"C15 custom-folder-read-other-memory got={showVal got} {ctx}"] else []))
 
 /-- C16 on a faulted fold observation -/
 def foldFaultOracle (k : Nat) (t : GoType) (v : GoVal) (obs : String) : List String :=
